@@ -33,6 +33,7 @@ type Op struct {
 	Async  bool   `json:"async,omitempty"`
 	Filter string `json:"filter,omitempty"` // all even odd  (every handler has a recording filter)
 	ID     int    `json:"id,omitempty"`
+	Any    bool   `json:"any,omitempty"` // pub: through the static type any
 }
 
 type Case struct {
@@ -198,7 +199,11 @@ func (w *world) execOp(task, idx int, op Op) {
 		p.ret = 1 << 60
 		h.mu.Unlock()
 		rec.call = p.call
-		tops.Pub(w.bus, context.Background(), op.ID)
+		if op.Any {
+			tops.PubAny(w.bus, context.Background(), op.ID)
+		} else {
+			tops.Pub(w.bus, context.Background(), op.ID)
+		}
 		h.mu.Lock()
 		p.ret = h.stamp()
 		h.mu.Unlock()
